@@ -39,6 +39,8 @@ CHAINS = ["A", "B", "C", "AA", ""]
 INS = ["", "A", "B"]
 NAMES = ["ALA", "GLY", "HOH", "LIG"]
 FNS = ["sum", "max", "len", "first", "minmax"]
+XFNS = ["mean0", "sum0", "half", "anypos", "minmaxmean"]     # result dtype differs from the data dtype
+N_BOND_TYPES = 10                                            # BondType.ANY .. BondType.AROMATIC (incl. COORDINATION = 8)
 
 KEY_CRASH_DEEP = "C17/find_connected/recursion-depth-crash"
 
@@ -169,6 +171,35 @@ def gen_lean():
                 rhs = assigned.get(rhs, rhs)
                 g.append((type(cmp.ops[0]).__name__ + " " + rhs, exc.func.id if isinstance(exc, ast.Call) else ast.unparse(exc)))
         guards.append((name, g))
+    # molecules: does anything on the path molecules.py -> find_connected look at bond types?
+    mol_src = open(os.path.join(base, "molecules.py")).read()
+    mol = ast.parse(mol_src)
+    for name in ("get_molecule_indices", "get_molecule_masks", "molecule_iter"):
+        _func(mol, name)
+    type_refs = []
+    for node in ast.walk(mol):
+        if isinstance(node, ast.Attribute) and isinstance(node.value, ast.Name) and node.value.id == "BondType":
+            type_refs.append("BondType." + node.attr)
+        if isinstance(node, ast.Subscript) and ast.unparse(node.slice).replace(" ", "") in (":,2", "...,2"):
+            type_refs.append("column:" + ast.unparse(node).replace('"', "'"))
+        if isinstance(node, ast.Call) and ast.unparse(node.func).endswith(("remove_bonds", "remove_bonds_to", "remove_bond")):
+            type_refs.append("call:" + ast.unparse(node.func))
+    pyx = open(os.path.join(base, "bonds.pyx")).read()
+    import re as _re
+    pyx_refs = []
+    for fname in ("find_connected", "_find_connected"):
+        m = _re.search(r"^(?:def|cdef)\s+" + fname + r"\(.*?(?=^(?:def|cdef|class|@)\s)", pyx, _re.S | _re.M)
+        if not m:
+            raise ValueError(f"bonds.pyx: {fname} not found")
+        code = _re.sub(r'"""(.*?)"""', "", m.group(0), flags=_re.S)
+        code = "\n".join(line.split("#")[0] for line in code.splitlines())
+        pyx_refs += [fname + ":" + x for x in _re.findall(r"BondType\.\w+|bond_types?\w*", code)]
+        if fname == "find_connected":
+            g = _re.search(r"^\s*(\w+)\s*,\s*(\w+)\s*=\s*bond_list\.get_all_bonds\(\)", code, _re.M)
+            if not g:
+                raise ValueError("find_connected: `<table>, <types> = bond_list.get_all_bonds()` not found")
+            if g.group(2) != "_" and _re.search(r"\b" + g.group(2) + r"\b", code[g.end():]):
+                pyx_refs.append("find_connected:uses-type-table:" + g.group(2))
     body = [
         "/- REGENERATED on every run by harness/props/c17.py from structure/residues.py, chains.py, segments.py. Do not edit. -/",
         "namespace BiotiteModel.Gen.C17",
@@ -184,6 +215,10 @@ def gen_lean():
         "/-- index guards: (function, [(condition, exception)]). -/",
         "def guards : List (String × List (String × String)) := ["
         + ", ".join('("' + n + '", [' + ", ".join(f'("{t}", "{e}")' for t, e in g) + "])" for n, g in guards) + "]",
+        "/-- every place in molecules.py that looks at a bond type (BondType members, the type column, bond removal). -/",
+        f"def moleculeBondTypeRefs : List String := {_lean_strs(type_refs)}",
+        "/-- every mention of bond types in bonds.pyx find_connected / _find_connected. -/",
+        f"def connectedBondTypeRefs : List String := {_lean_strs(pyx_refs)}",
         "end BiotiteModel.Gen.C17", ""]
     return {"BiotiteModel/Gen/C17.lean": "\n".join(body)}
 
@@ -251,8 +286,21 @@ def _seg_case(rng, atoms=None):
             "fn": rng.choice(FNS),
             "spread": {w: [rng.randint(-9, 99) for _ in range(_n_segments(atoms, w))] for w in "rc"},
             "bad_spread": ([rng.randint(0, 9) for _ in range(rng.choice([0, 1, 2, 3, 7]))] if rng.random() < 0.15 else None)}
+    case["applyx"] = [_gen_applyx(rng, n) for _ in range(rng.choice([1, 1, 2]))]
     case["ops"] = _seg_ops(case)
     return case
+
+
+def _gen_applyx(rng, n):
+    """data of dtype int / float (k/2, exactly representable) / bool, 1-D (cols 0) or 2-D (n x cols)."""
+    kind = rng.choice(["i", "i", "f", "b"])
+    cols = rng.choice([0, 0, 1, 2, 3])
+    m = n * max(cols, 1)
+    if kind == "b":
+        data = [rng.randint(0, 1) for _ in range(m)]
+    else:
+        data = [rng.randint(-9, 9) for _ in range(m)]
+    return {"fn": rng.choice(XFNS), "kind": kind, "cols": cols, "data": data}
 
 
 def _seg_ops(case):
@@ -264,6 +312,8 @@ def _seg_ops(case):
                 f"positions {w} {_ints(case['idx'])}",
                 f"apply {w} {case['fn']} {_ints(case['data'])}",
                 f"spread {w} {_ints(case['spread'][w])}"]
+        for x in case.get("applyx") or []:
+            ops.append(f"applyx {w} {x['fn']} {x['kind']} {x['cols']} {_ints(x['data'])}")
         if case.get("bad_idx") is not None:
             ops += [f"masks {w} {_ints(case['bad_idx'])}", f"startsfor {w} {_ints(case['bad_idx'])}",
                     f"positions {w} {_ints(case['bad_idx'])}"]
@@ -304,6 +354,10 @@ def _gen_graph(rng):
             b = rng.choice(bonds)
             bonds.append([b[1], b[0]])                                  # duplicate, reversed
         rng.shuffle(bonds)
+    # every bond type, chosen per bond: connectivity must not depend on it
+    mode = rng.random()
+    for b in bonds:
+        b.append(rng.randrange(N_BOND_TYPES) if mode < 0.7 else rng.choice([8, 0, 9, 1]) if mode < 0.9 else 1)
     roots = [rng.randrange(n) for _ in range(min(n, 3))] if n else []
     bad_roots = rng.sample([-1, n, n + 3, -n - 1, 2 ** 32, 2 ** 32 - 1], 2) if rng.random() < 0.4 else []
     case = {"kind": "graph", "n": n, "bonds": bonds, "roots": roots, "bad_roots": bad_roots}
@@ -312,7 +366,7 @@ def _gen_graph(rng):
 
 
 def _graph_ops(case):
-    ops = [f"graph {case['n']} " + (",".join(f"{a}-{b}" for a, b in case["bonds"]) if case["bonds"] else "_")]
+    ops = [f"graph {case['n']} " + (",".join("-".join(str(x) for x in b) for b in case["bonds"]) if case["bonds"] else "_")]
     ops += [f"connected {r}" for r in case["roots"] + case.get("bad_roots", [])]
     ops += ["molecules", "molmasks"]
     return ops
@@ -340,7 +394,8 @@ def cases(rng, tier):
 def _mk(atoms, **kw):
     c = {"kind": "seg", "atoms": atoms, "idx": kw.get("idx", []), "bad_idx": kw.get("bad_idx"),
          "data": kw.get("data", list(range(len(atoms)))), "fn": kw.get("fn", "sum"),
-         "spread": {w: list(range(_n_segments(atoms, w))) for w in "rc"}, "bad_spread": kw.get("bad_spread")}
+         "spread": {w: list(range(_n_segments(atoms, w))) for w in "rc"}, "bad_spread": kw.get("bad_spread"),
+         "applyx": kw.get("applyx", [])}
     c["ops"] = _seg_ops(c)
     return c
 
@@ -353,12 +408,23 @@ def corpus():
         _mk([[0, 1, 0, 0], [1, 1, 0, 0], [1, 1, 1, 0], [1, 1, 1, 1], [1, 0, 1, 1], [1, 0, 1, 1]],
             idx=[0, 1, 2, 3, 4, 5], bad_idx=[5, 6], fn="minmax"),
         _mk([[0, 5, 0, 0]] * 4, idx=[3, 0], bad_spread=[1, 2, 3]),
+        # result dtype differs from the data dtype: mean of int vectors, bool -> int sums, predicates, float from int
+        _mk([[0, 1, 0, 0], [0, 1, 0, 0], [0, 2, 0, 0], [1, 2, 0, 0], [1, 1, 0, 0]], applyx=[
+            {"fn": "mean0", "kind": "i", "cols": 2, "data": [1, 2, 2, 2, 3, 4, 5, 6, 7, 8]},
+            {"fn": "sum0", "kind": "b", "cols": 2, "data": [1, 1, 0, 1, 0, 1, 1, 1, 0, 0]},
+            {"fn": "anypos", "kind": "i", "cols": 2, "data": [1, -2, 2, -2, 3, -4, 5, -6, -7, -8]},
+            {"fn": "minmaxmean", "kind": "i", "cols": 0, "data": [1, 2, 3, 4, 6]},
+            {"fn": "half", "kind": "i", "cols": 3, "data": list(range(15))}]),
+        _mk([], applyx=[{"fn": "mean0", "kind": "i", "cols": 2, "data": []}]),
     ]
     g = [
         {"kind": "graph", "n": 0, "bonds": [], "roots": [], "bad_roots": [0, -1]},
         {"kind": "graph", "n": 5, "bonds": [[0, 1], [3, 1], [2, 4]], "roots": [0, 3, 4], "bad_roots": [5, -1]},
         {"kind": "graph", "n": 6, "bonds": [[0, 1], [1, 2], [2, 0], [2, 0], [4, 4]], "roots": [2, 3, 4], "bad_roots": [4294967296]},
         {"kind": "graph", "n": 40, "bonds": [[i, i + 1] for i in range(39)], "roots": [0, 39, 20], "bad_roots": []},
+        # a metal ion (atom 2) bridging two ligands by COORDINATION bonds; one bond of every type
+        {"kind": "graph", "n": 5, "bonds": [[0, 1, 1], [1, 2, 8], [2, 3, 8], [3, 4, 2]], "roots": [0, 2, 4], "bad_roots": []},
+        {"kind": "graph", "n": 12, "bonds": [[i, i + 1, i] for i in range(10)], "roots": [0, 5, 11], "bad_roots": []},
     ]
     for c in g:
         c["ops"] = _graph_ops(c)
@@ -382,6 +448,46 @@ def _pyfn(name):
     import numpy as np
     return {"sum": np.sum, "max": np.max, "len": len, "first": (lambda s: s[0]),
             "minmax": (lambda s: np.array([s.min(), s.max()]))}[name]
+
+
+def _xfn(name):
+    import numpy as np
+    return {"mean0": (lambda s: np.mean(s, axis=0)), "sum0": (lambda s: np.sum(s, axis=0)),
+            "half": (lambda s: np.sum(s, axis=0) / 2), "anypos": (lambda s: (s > 0).any(axis=0)),
+            "minmaxmean": (lambda s: np.array([s.min(), s.max(), s.mean()]))}[name]
+
+
+def _xdata(x, n):
+    """The per-atom data array of an applyx entry: dtype int / float / bool, shape (n,) or (n, cols)."""
+    import numpy as np
+    a = np.array(x["data"], dtype=int)
+    a = {"i": a, "f": a / 2.0, "b": a.astype(bool)}[x["kind"]]
+    return a.reshape(n, x["cols"]) if x["cols"] else a.reshape(n)
+
+
+def _kind(a):
+    import numpy as np
+    k = np.asarray(a).dtype.kind
+    return {"i": "i", "u": "i", "f": "f", "b": "b"}.get(k, k)
+
+
+def _show_applyx(res):
+    """`<dtype kind> v:v,v:v` - one group per segment; floats as exact small fractions, never as decimals."""
+    from fractions import Fraction
+    import numpy as np
+    if res is None:
+        return "ok None"
+    res = np.asarray(res)
+    if len(res) == 0:
+        return "ok _"
+    k = _kind(res)
+
+    def one(v):
+        if k == "f":
+            fr = Fraction(float(v)).limit_denominator(10000)
+            return f"{fr.numerator}/{fr.denominator}"
+        return str(int(v))
+    return f"ok {k} " + ",".join(":".join(one(v) for v in np.asarray(row).reshape(-1)) for row in res)
 
 
 def _err(e):
@@ -450,11 +556,20 @@ def _seg_impl(case):
                 out.append(_show_apply(res, w[2]))
             elif w[0] == "spread":
                 out.append("ok " + _ints(F[w[1]]["spread"](arr, np.array(_parse(w[2]), dtype=int))))
+            elif w[0] == "applyx":
+                x = {"fn": w[2], "kind": w[3], "cols": int(w[4]), "data": _parse(w[5])}
+                out.append(_show_applyx(F[w[1]]["apply"](arr, _xdata(x, arr.array_length()), _xfn(w[2]))))
             else:
                 out.append("bad-op")
         except Exception as e:  # noqa: BLE001
             out.append(_err(e))
     return out
+
+
+def _bond_array(bonds):
+    """(i, j) or (i, j, type) -> BondList input; a missing type is SINGLE."""
+    import numpy as np
+    return np.array([[b[0], b[1], b[2] if len(b) > 2 else 1] for b in bonds], dtype=np.int64).reshape(-1, 3)
 
 
 def _graph_impl_child(case):
@@ -468,7 +583,7 @@ def _graph_impl_child(case):
             if w[0] == "graph":
                 n = int(w[1])
                 bonds = [] if w[2] == "_" else [[int(x) for x in b.split("-")] for b in w[2].split(",")]
-                bl = struc.BondList(n, np.array([[a, b, 1] for a, b in bonds], dtype=np.int64).reshape(-1, 3))
+                bl = struc.BondList(n, _bond_array(bonds))
                 out.append("ok")
             elif w[0] == "connected":
                 out.append("ok " + _ints(struc.find_connected(bl, int(w[1]))))
@@ -628,6 +743,35 @@ def _seg_oracle(case):
                 ok2, sp = call(f"spread_{nm}_wise", f_spread, arr, got)
                 if ok2 and np.asarray(sp).tolist() != [exp[seg_of[i]] for i in range(n)]:
                     bad(f"spread_{nm}_wise/spread-apply", "spread(apply(f))[i] != f(segment of i)")
+        # reducing functions whose result dtype differs from the data dtype (int -> float mean, bool -> int sum,
+        # predicates -> bool, array-valued results): value AND dtype kind of a direct per-segment recomputation
+        for x in case.get("applyx") or []:
+            xd = _xdata(x, n)
+            xf = _xfn(x["fn"])
+            ok, got = call(f"apply_{nm}_wise", f_apply, arr, xd, xf)
+            if not ok:
+                continue
+            exp = [np.asarray(xf(xd[m])) for m in members]
+            what = f"apply({x['fn']}) on {x['kind']}-data shape {xd.shape}"
+            if got is None:
+                bad(f"apply_{nm}_wise/returns-None", f"{what} returned None")
+                continue
+            got = np.asarray(got)
+            if not members:
+                if len(got) != 0:
+                    bad(f"apply_{nm}_wise/value", f"{what}: {got.tolist()} for no segment")
+                continue
+            expa = np.stack(exp)
+            if got.shape != expa.shape or not np.allclose(got.astype(float), expa.astype(float), rtol=0, atol=1e-9):
+                bad(f"apply_{nm}_wise/result-differs-from-per-segment-value",
+                    f"{what} = {got.tolist()} != per-segment recomputation {expa.tolist()}")
+            elif _kind(got) != _kind(expa):
+                bad(f"apply_{nm}_wise/result-dtype", f"{what}: dtype kind {_kind(got)} != {_kind(expa)} of the function's result")
+            else:
+                ok2, sp = call(f"spread_{nm}_wise", f_spread, arr, got)
+                if ok2 and (np.asarray(sp).shape[0] != n or not np.allclose(
+                        np.asarray(sp).astype(float), np.stack([expa[seg_of[i]] for i in range(n)]).astype(float), rtol=0, atol=1e-9)):
+                    bad(f"spread_{nm}_wise/spread-apply", f"{what}: spread(apply(f))[i] != f(segment of i)")
         ok, sp = call(f"spread_{nm}_wise", f_spread, arr, np.array(case["spread"][w], dtype=int))
         if ok and [int(x) for x in sp] != [case["spread"][w][seg_of[i]] for i in range(n)]:
             bad(f"spread_{nm}_wise/value", f"spread = {list(map(int, sp))}")
@@ -653,8 +797,8 @@ class _UF:
 
 def _components(n, bonds):
     uf = _UF(n)
-    for a, b in bonds:
-        uf.union(int(a), int(b))
+    for b in bonds:
+        uf.union(int(b[0]), int(b[1]))
     comp = {}
     for v in range(n):
         comp.setdefault(uf.find(v), []).append(v)
@@ -671,7 +815,7 @@ def _graph_oracle_child(case):
     for c in exp:
         for x in c:
             comp_of[x] = c
-    bl = struc.BondList(n, np.array([[a, b, 1] for a, b in bonds], dtype=np.int64).reshape(-1, 3))
+    bl = struc.BondList(n, _bond_array(bonds))
     got = [[int(x) for x in m] for m in struc.get_molecule_indices(bl)]
     if sorted(got) != exp:
         v.append(("C17/get_molecule_indices/components", f"n={n} bonds={bonds}: {got} != connected components {exp}"))
@@ -683,6 +827,9 @@ def _graph_oracle_child(case):
     arr = struc.AtomArray(n)
     arr.set_annotation("uid", np.arange(n, dtype=int))
     arr.bonds = bl
+    got_a = sorted([int(x) for x in m] for m in struc.get_molecule_indices(arr))
+    if got_a != exp:
+        v.append(("C17/get_molecule_indices/components", f"n={n} bonds={bonds} (AtomArray): {got_a} != connected components {exp}"))
     mols = sorted([int(u) for u in m.uid] for m in struc.molecule_iter(arr))
     if mols != exp:
         v.append(("C17/molecule_iter/components", f"n={n} bonds={bonds}: {mols} != {exp}"))
@@ -737,7 +884,8 @@ def _big_child(case):
     n = case["n"]
     b = _big_bonds(case["shape"], n)
     exp = _components(n, b.tolist())
-    bl = struc.BondList(n, np.concatenate([b, np.ones((len(b), 1), dtype=int)], axis=1))
+    types = (np.arange(len(b)) % N_BOND_TYPES).reshape(-1, 1)        # every bond type occurs
+    bl = struc.BondList(n, np.concatenate([b, types], axis=1))
     got = struc.get_molecule_indices(bl)
     if sorted([int(m[0]), len(m)] for m in got) != sorted([c[0], len(c)] for c in exp):
         return "components differ"
@@ -812,7 +960,7 @@ def nontrivial(case, impl_out):
 
 def signature(case):
     if case["kind"] == "seg":
-        return "seg|" + "|".join(case["ops"][:1]) + f"|{case['idx']}|{case['bad_idx']}|{case['fn']}|{case['data']}"
+        return "seg|" + "|".join(case["ops"][:1]) + f"|{case['idx']}|{case['bad_idx']}|{case['fn']}|{case['data']}|{case.get('applyx')}"
     if case["kind"] == "graph":
         return "graph|" + "|".join(case["ops"])
     return f"big|{case['shape']}|{case['n']}"
@@ -852,7 +1000,8 @@ def shrink(case, key):
         def fails(atoms):
             n = len(atoms)
             c = dict(case, atoms=atoms, idx=[i for i in case["idx"] if i < n], data=case["data"][:n],
-                     spread={w: list(range(_n_segments(atoms, w))) for w in "rc"}, bad_spread=None)
+                     spread={w: list(range(_n_segments(atoms, w))) for w in "rc"}, bad_spread=None,
+                     applyx=[dict(x, data=x["data"][:n * max(x["cols"], 1)]) for x in case.get("applyx") or []])
             try:
                 return any(k == key for k, _ in _seg_oracle(c))
             except Exception:  # noqa: BLE001
@@ -860,7 +1009,8 @@ def shrink(case, key):
         atoms = util.shrink_list(case["atoms"], fails, max_steps=150)
         n = len(atoms)
         c = dict(case, atoms=atoms, idx=[i for i in case["idx"] if i < n], data=case["data"][:n],
-                 spread={w: list(range(_n_segments(atoms, w))) for w in "rc"}, bad_spread=None)
+                 spread={w: list(range(_n_segments(atoms, w))) for w in "rc"}, bad_spread=None,
+                 applyx=[dict(x, data=x["data"][:n * max(x["cols"], 1)]) for x in case.get("applyx") or []])
         if not any(k == key for k, _ in _seg_oracle(c)):
             return case
         c["ops"] = _seg_ops(c)
